@@ -24,7 +24,7 @@ from pathlib import Path
 
 VERIF = Path(__file__).resolve().parent.parent
 LEAN_DIR = VERIF / "lean"
-REPO = Path(os.environ.get("VERIF_REPO", "/repo"))
+REPO = Path((os.environ.get("VERIF_REPO") or "/repo"))
 GUARD = "PYAUTOFIT_VERIF"
 
 _scratch = None
